@@ -24,7 +24,7 @@ def gluePrioV1Expected : List (String × String × String × List String) := [
   ("priority", "Discipline", "loop", ["dsc.waitZeroActual()", "for", "<-dsc.breaker.IsBreaked()", "dsc.breaker.IsBreaked()", "return", "<-dsc.opts.Ctx.Done()", "dsc.opts.Ctx.Done()", "return", "<-dsc.inputAdds", "dsc.addInput($1.channel, $1.priority)", "<-dsc.inputRmvs", "dsc.removeInput($2)", "<-dsc.opts.Feedback", "dsc.decreaseActual($2)", "dsc.clearActual()", "dsc.base()", "if $4 != nil", "return", "if $3 == 0", "<-dsc.graceful.IsBreaked()", "dsc.graceful.IsBreaked()", "if dsc.isDrainedInputs()", "dsc.isDrainedInputs()", "return", "time.Sleep(defaultIdleDelay)", "dsc.getLimitedFeedback()"]),
   ("priority", "Simple", "Stop", ["smpl.breaker.Break()"]),
   ("priority", "Simple", "GracefulStop", ["smpl.graceful.Break()"]),
-  ("priority", "Simple", "main", ["smpl.breaker.Complete()", "smpl.graceful.Complete()", "smpl.wg.Wait()", "smpl.priority.Stop()", "for", "smpl.wg.Add(1)", "smpl.handler($1)", "<-smpl.breaker.IsBreaked()", "smpl.breaker.IsBreaked()", "<-smpl.opts.Ctx.Done()", "smpl.opts.Ctx.Done()", "<-smpl.graceful.IsBreaked()", "smpl.graceful.IsBreaked()", "smpl.gracefulStop()", "<-smpl.priority.Err()", "smpl.priority.Err()", "smpl.err <- $3"]),
+  ("priority", "Simple", "main", ["smpl.breaker.Complete()", "smpl.graceful.Complete()", "smpl.wg.Wait()", "smpl.priority.Stop()", "for", "smpl.wg.Add(1)", "smpl.handler($1)", "<-smpl.breaker.IsBreaked()", "smpl.breaker.IsBreaked()", "<-smpl.opts.Ctx.Done()", "smpl.opts.Ctx.Done()", "<-smpl.graceful.IsBreaked()", "smpl.graceful.IsBreaked()", "smpl.gracefulStop()", "if $3 != nil", "<-smpl.priority.Err()", "smpl.priority.Err()", "smpl.err <- $3", "<-smpl.priority.Err()", "smpl.priority.Err()", "smpl.err <- $3"]),
   ("priority", "Simple", "gracefulStop", ["func{", "smpl.priority.GracefulStop()", "<-$1", "return", "<-smpl.breaker.IsBreaked()", "smpl.breaker.IsBreaked()", "<-smpl.opts.Ctx.Done()", "smpl.opts.Ctx.Done()", "smpl.priority.Stop()", "<-$1"]),
   ("priority", "Simple", "handler", ["smpl.wg.Done()", "for", "<-$1.Done()", "return", "<-smpl.output", "smpl.opts.Handle($1, $2.Item)", "<-$1.Done()", "return", "smpl.feedback <- $2.Priority"])
 ]
